@@ -431,6 +431,7 @@ type World struct {
 	blackholed  bool
 	sendErrUsed bool
 	timerLeaks  []string
+	tm          map[string]*tmLive
 	blackholeAt time.Duration
 	extra       map[string]any
 }
